@@ -78,7 +78,12 @@ Line ==
           /\ AtNow /\ call[e.th] = NULL /\ res[e.th] = e.r
           /\ (e.op = "recv" /\ e.r = "ok") => (got[e.th] = e.tag /\ e.hl = 4)
           /\ res' = [res EXCEPT ![e.th] = "none"] /\ UNCHANGED <<vars, got>>
-     [] e.k = "padd" -> AtNow /\ AddPipe(e.p, e.r = "ok") /\ UNCH_T
+     [] e.k = "padd" ->
+          \* the protocol is being told of the pipe; its verdict is a function of its state
+          AtNow /\ (\E ok \in BOOLEAN : AddPipe(e.p, ok)) /\ UNCH_T
+     [] e.k = "paddres" ->
+          \* ... and must be the one observed
+          (e.r = "ok") = (e.p \in pipes) /\ UNCHANGED vars /\ UNCH_T
      [] e.k = "prem" -> AtNow /\ RemovePipe(e.p) /\ UNCH_T
      [] e.k = "rv" ->
           /\ AtNow
